@@ -88,10 +88,10 @@ Section Unfold.
         end
     | TArray e lo hi =>
         match b with
-        | TArray e' lo' hi' => size_sub lo hi lo' hi' && ((hi' =? 0) || G e e')
+        | TArray e' lo' hi' => size_sub lo hi lo' hi' && ((hi' <=? 0) || G e e')
         | TTuple ts _ lo' hi' =>
             size_sub lo hi lo' hi' &&
-            ((hi' =? 0) ||
+            ((hi' <=? 0) ||
              match ts with
              | [] => G e TAny
              | _ => forallb (G e) ts
@@ -100,7 +100,7 @@ Section Unfold.
         end
     | THash k v lo hi =>
         match b with
-        | THash k' v' lo' hi' => size_sub lo hi lo' hi' && ((hi' =? 0) || (G k k' && G v v'))
+        | THash k' v' lo' hi' => size_sub lo hi lo' hi' && ((hi' <=? 0) || (G k k' && G v v'))
         | TStruct ms =>
             size_sub lo hi (struct_required ms) (zlen ms) &&
             forallb (fun m => G k (actual_key (fst (snd m))) && G v (snd (snd m))) ms
@@ -108,12 +108,12 @@ Section Unfold.
         end
     | TTuple ts _ lo hi =>
         match b with
-        | TArray e' lo' hi' => size_sub lo hi lo' hi' && ((hi' =? 0) || forallb (fun t => G t e') ts)
+        | TArray e' lo' hi' => size_sub lo hi lo' hi' && ((hi' <=? 0) || forallb (fun t => G t e') ts)
         | TTuple os _ lo' hi' =>
             size_sub lo hi lo' hi' &&
             match ts with
             | [] => true
-            | _ => (hi' =? 0) || match os with [] => forallb (fun t => G t TAny) ts | _ => tpairs ts os end
+            | _ => (hi' <=? 0) || match os with [] => forallb (fun t => G t TAny) ts | _ => tpairs ts os end
             end
         | _ => false
         end
